@@ -36,7 +36,8 @@ macro_rules! with_sim {
         match $prop {
             "C01" => { let $s = &kit::Plus { a: sim_a::SimA { prop: sim_a::PropA::C01 }, b: sim_h::SimH { prop: sim_h::PropH::C01 }, every: 40, name: "A:exchange-report-delivery + H:whole-system(virtual time)" }; $body }
             "H:C01" => { let $s = &kit::Plus { a: sim_a::SimA { prop: sim_a::PropA::C01 }, b: sim_h::SimH { prop: sim_h::PropH::C01 }, every: 1, name: "H:whole-system(virtual time)" }; $body }
-            "C09" => { let $s = &sim_a::SimA { prop: sim_a::PropA::C09 }; $body }
+            "C09" => { let $s = &kit::Plus { a: sim_a::SimA { prop: sim_a::PropA::C09 }, b: sim_h::SimH { prop: sim_h::PropH::C09 }, every: 40, name: "A:exchange-report-delivery + H:whole-system(virtual time)" }; $body }
+            "H:C09" => { let $s = &kit::Plus { a: sim_a::SimA { prop: sim_a::PropA::C09 }, b: sim_h::SimH { prop: sim_h::PropH::C09 }, every: 1, name: "H:whole-system(virtual time)" }; $body }
             "C03" => { let $s = &kit::Plus { a: sim_b::SimB { prop: sim_b::PropB::C03 }, b: sim_h::SimH { prop: sim_h::PropH::C03 }, every: 10, name: "B:engine+execution-links + H:whole-system(virtual time)" }; $body }
             "H:C03" => { let $s = &kit::Plus { a: sim_b::SimB { prop: sim_b::PropB::C03 }, b: sim_h::SimH { prop: sim_h::PropH::C03 }, every: 1, name: "H:whole-system(virtual time)" }; $body }
             "C14" => { let $s = &kit::Plus { a: sim_b::SimB { prop: sim_b::PropB::C14 }, b: sim_h::SimH { prop: sim_h::PropH::C14 }, every: 20, name: "B:engine+execution-links + H:whole-system(virtual time)" }; $body }
